@@ -813,3 +813,42 @@ Lemma single_term_value : forall u x, R_value (single_term_stripped R R 0 u x) =
 Proof.
   intros. unfold single_term_stripped. rewrite R_value_strip_arr, pow10_0, R_scale_1. reflexivity.
 Qed.
+
+(* ------------------------------------------------------------------ *)
+(* witnesses in the exact-IEEE instance (finding strip-zero-slice)        *)
+Definition zs_prog : list (instr xq) := [pair_step 2 0 1 [[(0,0)];[(0,1)];[(1,0)];[(1,1)]]%N].
+Definition zs_slices : list (list (list xq)) :=
+  [ [[q 1 1; q 2 1]; [q 1 1; q 2 1]];  [[q 0 1; q 0 1]; [q 3 1; q 4 1]] ].
+
+Lemma zero_slice_refuted : exists prog slices r s,
+  X_wf prog [0;1]%nat = true /\
+  X_sum false false false prog slices = Some (Plain (MArr r)) /\
+  forallb x_nonzero_finite r = true /\
+  X_sum false true false prog slices = Some s /\
+  x_value_ok (Plain (MArr r)) s = false /\
+  s = Strip (MArr [XNaN; XNaN; XNaN; XNaN]) (XF 4).
+Proof.
+  exists zs_prog, zs_slices, [XF 1; XF 2; XF 2; XF 4], (Strip (MArr [XNaN; XNaN; XNaN; XNaN]) (XF 4)).
+  vm_compute. repeat split; reflexivity.
+Qed.
+
+Lemma zero_slice_check_zero : 
+  x_value_ok (Plain (MArr [XF 1; XF 2; XF 2; XF 4]))
+             (match X_sum false true true zs_prog zs_slices with Some s => s | None => Plain (MScal XNaN) end) = true /\
+  X_sum false true true zs_prog [nth 1 zs_slices []; nth 1 zs_slices []; nth 0 zs_slices []] =
+     Some (Strip (MArr [XNaN; XNaN; XNaN; XNaN]) (XF 4)) /\
+  X_stack false true true false zs_prog [0;1]%nat zs_slices = None.
+Proof. vm_compute. repeat split; reflexivity. Qed.
+
+Lemma zero_slice_with_fix :
+  let ok o := x_value_ok (Plain (MArr [XF 1; XF 2; XF 2; XF 4]))
+                         (match o with Some s => s | None => Plain (MScal XNaN) end) in
+  let z := nth 1 zs_slices [] in let nz := nth 0 zs_slices [] in
+  ok (X_sum true true false zs_prog zs_slices) = true /\
+  ok (X_sum true true true zs_prog zs_slices) = true /\
+  ok (X_sum true true false zs_prog [z; z; nz]) = true /\
+  ok (X_sum true true true zs_prog [z; z; nz]) = true /\
+  X_stack true true false false zs_prog [0;1]%nat zs_slices =
+    Some ([(0%nat, MArr [XF (1#4); XF (1#2); XF (1#2); XF 1]); (1%nat, MArr [XF 0; XF 0; XF 0; XF 0])], Some (XF 4)) /\
+  X_stack true true true false zs_prog [0;1]%nat zs_slices = None.
+Proof. vm_compute. repeat split; reflexivity. Qed.
